@@ -178,6 +178,10 @@ BacktrackOptimal ==
 \* The tables really are "programs" the property quantifies over.
 TableAdmissible == Running => SplitNeverIncreases(C, N)
 
+\* C15: a larger penalty never increases the number of changepoints of ANY optimal segmentation
+PenaltyMonotoneInv ==
+    (Running /\ t = 2 * M - 1) => \A b2 \in 0..MaxBeta : PenaltyMonotone(C, beta, b2, N, M)
+
 (* Normalisation lemma: adding a per-sample constant u[i] to every interval containing i     *)
 (* shifts every candidate of a prefix by the same amount, so the algorithm's decisions and    *)
 (* the optimal segmentations are unchanged; hence zero unit cost loses no generality.        *)
